@@ -420,3 +420,64 @@ def r5(R):
                         'turned into a normal end of the index: a truncated '
                         'index is accepted as a smaller, complete one and '
                         'objects disappear')
+
+
+# ------------------------------------------------------------------ C19.R6
+@rule('C19.R6', 'the neighbouring prefix is computed only for a prefix that '
+      'has one: prefix_plus_one is not applied to the all-ones prefix (it '
+      'wraps to zero) nor prefix_minus_one to the all-zero prefix',
+      min_instances=2)
+def r6(R):
+    cls = R.prog.cls(FSINDEX)
+    n = 0
+    for f in cls.methods.values():
+        if not any(isinstance(c, ast.Call) and dotted(c.func) and
+                   dotted(c.func)[-1] in ('prefix_plus_one',
+                                          'prefix_minus_one')
+                   for c in walk_local(f.node)):
+            continue
+        g, b, F = R.cfg(f, cls, max_depth=0)
+
+        def edge(node, st, lab, tgt):
+            if node.kind == 'test' and lab in ('T', 'F'):
+                for e, truth in implied_atoms(node.ast, lab):
+                    if isinstance(e, ast.Compare) and len(e.ops) == 1 and \
+                            isinstance(e.ops[0], (ast.Eq, ast.NotEq)) and \
+                            isinstance(e.left, ast.Name) and any(
+                                isinstance(x, ast.Constant) and isinstance(
+                                    x.value, bytes)
+                                for x in ast.walk(e.comparators[0])):
+                        if isinstance(e.ops[0], ast.NotEq) == truth:
+                            return st | {e.left.id}
+            if node.kind == 'stmt' and isinstance(node.ast, ast.Assign):
+                for t in node.ast.targets:
+                    if isinstance(t, ast.Name) and t.id in st:
+                        return st - {t.id}
+            return st
+
+        def at(node, st):
+            for op in F.ops(node):
+                if op.kind == 'call' and op.path and op.path[-1].split(
+                        '.')[-1] in ('prefix_plus_one', 'prefix_minus_one'):
+                    a = op.ast.args[0] if op.ast.args else None
+                    if not (isinstance(a, ast.Name) and a.id in st):
+                        return Violation(
+                            '`%s` is computed without having excluded the '
+                            'extreme prefix: at the boundary it wraps (or '
+                            'raises struct.error), and %s answers with a '
+                            'key on the wrong side of the query instead of '
+                            'ValueError' % (ast.unparse(op.ast), f.name))
+            return st
+
+        sites = [c for c in walk_local(f.node) if isinstance(c, ast.Call)
+                 and dotted(c.func) and dotted(c.func)[-1] in (
+                     'prefix_plus_one', 'prefix_minus_one')]
+        for c in sites:
+            n += 1
+            R.instance('fsIndex.%s: %s' % (f.name, ast.unparse(c)))
+        vs, stats = explore(g, frozenset(), at=at, edge=edge)
+        R.count(stats)
+        for v in vs:
+            R.violation(v.node, v.message, g, v.path)
+    R.require(n >= 2, 'minKey/maxKey no longer step to the neighbouring '
+              'prefix')
